@@ -58,6 +58,8 @@ type Transcoder struct {
 // ServeHTTP implements http.Handler, dispatching requests for configured
 // services and transcoding protocols and message encoding as needed.
 func (t *Transcoder) ServeHTTP(writer http.ResponseWriter, request *http.Request) {
+	writer, request, verifDone := verifServe(writer, request)
+	defer verifDone()
 	op := t.newOperation(writer, request)
 	defer op.cancel()
 	err := op.validate(t)
